@@ -38,7 +38,7 @@ ASSUMPTIONS = [
 SECRET_IDS = {'psk', 'skeyseed', 'keymat', 'keypad', 'shared_secret', 'sk_d', 'sk_ai', 'sk_ar', 'sk_ei', 'sk_er', 'sk_pi', 'sk_pr',
               'sk_e', 'sk_a', 'sk_p', 'old_sk_d', '_private_key', 'privkey', 'cookie_secret', 'ike_sa_keyring', 'child_sa_keyring',
               'keyring', 'ike_conf', 'ikeconf'}
-SECRET_CONTAINERS = {'my_auth', 'peer_auth', 'configuration'}   # records whose repr() shows credentials
+SECRET_CONTAINERS = {'my_auth', 'peer_auth', 'configuration', 'ike_configurations'}   # records whose repr() shows credentials
 SECRET_IDS_BY_MODULE = {'crypto': {'key'}, 'xfrm': {'key'}, 'configuration': {'conf_dict', 'ikeconfdict'}, 'pyikev2': {'conf_dict'}}
 SECRET_KEYS = {'psk', 'privkey', 'my_auth', 'peer_auth'}     # keys of the configuration mapping that hold credentials
 SANITISERS = {'len', 'prf', 'prfplus', 'compute', 'HMAC', 'digest', 'sign', 'verify', 'encrypt', 'decrypt', 'int', 'bool', 'isinstance',
